@@ -25,7 +25,7 @@ MANIFEST = {
     "note": "Trusted: collapse_envd's parsing of env.d, simple_chksum_compare (content equality through checksums), contentsSet "
             "operations (C22), StrGlobMatch / StrRegex; pyvc encoder.",
 }
-ASSUMPTIONS = ["simple_chksum_compare(a, b) decides 'same content'", "entry locations in the install / uninstall sets carry the engine's offset (MergeEngine.generate_offset_cset)"]
+ASSUMPTIONS = ["simple_chksum_compare(a, b) decides 'same content' (its own contract -- yes exactly when both are files, share a checksum kind and agree on all shared kinds -- is checked for all values over four kinds: bounded in the kinds)", "entry locations in the install / uninstall sets carry the engine's offset (MergeEngine.generate_offset_cset)"]
 
 
 def T():
@@ -227,7 +227,8 @@ def enum_roots(seed):
                 if state != "absent":
                     q = os.path.join(root, rel)
                     os.makedirs(os.path.dirname(q), exist_ok=True)
-                    open(q, "w").write(f"new content of {rel}\n" if state == "same" else f"edited by the admin {rel}\n")
+                    # an edited file may well be as long as the incoming one (port=9090 against port=8080): it is still another content
+                    open(q, "w").write(f"new content of {rel}\n" if state == "same" else f"NEW CONTENT OF {rel}\n" if rnd.random() < .4 else f"edited by the admin {rel}\n")
             pending = {}
             for rel, state in files.items():
                 if state == "edited" and rnd.random() < .6:
@@ -235,7 +236,7 @@ def enum_roots(seed):
                     for num in rnd.sample(range(4), rnd.choice((1, 2))):
                         ident = rnd.random() < .4
                         pn = os.path.join(d, f"._cfg{num:04d}_{n}")
-                        open(os.path.join(root, pn), "w").write(f"new content of {rel}\n" if ident else f"older proposal {num}\n")
+                        open(os.path.join(root, pn), "w").write(f"new content of {rel}\n" if ident else f"new content 0f {rel}\n" if rnd.random() < .4 else f"older proposal {num}\n")
                         pending.setdefault(rel, []).append((num, ident))
             install = contents.contentsSet(livefs.scan(img, offset=img)).insert_offset(root)
             existing = contents.contentsSet(livefs.intersect(install))
@@ -442,11 +443,53 @@ def enum_roots(seed):
             "identical / edited, random pending ._cfg files (identical or not), ConfigProtectInstall + merge_contents + restore, then local edits + ConfigProtectUninstall + unmerge_contents (every other root through the merge engine's own wiring: MergeEngine.uninstall, or MergeEngine.replace by a version that no longer ships the files); 3 merges through MergeEngine.install with the protected directory plain, a symlink leading out of /etc and a symlink staying inside it", "cases": cases, "failures": fails}
 
 
+def t_chksum_compare(ex):
+    """simple_chksum_compare(x, y) -- the 'same content' answer the three triggers act on -- says yes exactly when both entries are regular
+    files, carry at least one checksum kind in common (the size counts as one) and agree on every kind they both carry; for all checksum values,
+    for every pattern of which of four kinds each side carries"""
+    import types
+    import z3
+    from pyvc.api import call, Interp
+    from pyvc.sym import KInt, KBool, SBool, SObj, And, Or, Not
+    KINDS = ("md5", "sha1", "sha512", "size")
+    P = "C21.simple_chksum_compare"
+    sides = []
+    for tag in ("x", "y"):
+        have = [bool(ex.choose(2)) for _ in KINDS]
+        vals = {k: KInt.fresh(f"{tag}_{k}") for k, h in zip(KINDS, have) if h}
+        reg = KBool.fresh(f"{tag}_is_reg")
+        ex.inputs.update({f"{tag}.chksums": dict(vals), f"{tag}.is_reg": reg})
+        sides.append((reg, vals, SObj(types.SimpleNamespace, {"is_reg": reg, "chksums": dict(vals)})))
+    (xr, xv, x), (yr, yv, y) = sides
+    it = Interp(ex, label=P)
+    out = call(it, it.target(TRG, "simple_chksum_compare"), x, y)
+    ex.oblige(f"{P}.raises.nothing", not out.raised, kind="exceptional-postcondition")
+    if out.raised:
+        return
+    ex.cover("returns")
+    shared = [k for k in KINDS if k in xv and k in yv]
+    want = And(xr, yr, bool(shared), *[xv[k] == yv[k] for k in shared])
+    got = out.value if isinstance(out.value, SBool) else SBool(z3.BoolVal(bool(out.value)))
+    ex.oblige(f"{P}.ensures.same_content_exactly_when_both_are_files_share_a_checksum_kind_and_agree_on_all_shared_kinds", got == want)
+
+
+def replay_chksum_compare(model):
+    import types
+    from pkgcore.ebuild.triggers import simple_chksum_compare
+    mk = lambda t: types.SimpleNamespace(is_reg=bool(model.get(f"{t}.is_reg", True)), chksums=dict(model.get(f"{t}.chksums", {})))
+    x, y = mk("x"), mk("y")
+    got = simple_chksum_compare(x, y)
+    shared = [k for k in x.chksums if k in y.chksums]
+    want = x.is_reg and y.is_reg and bool(shared) and all(x.chksums[k] == y.chksums[k] for k in shared)
+    return bool(got) != bool(want), f"simple_chksum_compare(is_reg={x.is_reg} {x.chksums}, is_reg={y.is_reg} {y.chksums}) = {got}; same content by the shared checksums: {want}"
+
+
 def tasks():
     return [
         Task("C21.gen_config_protect_filter", t_protect_filter, [(TRG, "gen_config_protect_filter")], bounded={"settings": "4 protect x 4 mask lists x 2 offsets", "note": "filter evaluated on 14 locations"}),
         Task("C21.gen_collision_ignore_filter", t_ignore_filter, [(TRG, "gen_collision_ignore_filter")], bounded={"settings": "4 COLLISION_IGNORE lists"}),
         Task("C21.ConfigProtectInstall", t_install_trigger, [(TRG, "ConfigProtectInstall.trigger"), (TRG, "ConfigProtectInstall_restore.trigger")], bounded={"entries": 2, "pending files": 5, "note": "content answers arbitrary"}),
+        Task("C21.simple_chksum_compare", t_chksum_compare, [(TRG, "simple_chksum_compare")], bounded={"checksum kinds": "md5, sha1, sha512, size: every pattern of which side carries which (256), all values"}),
         Task("C21.ConfigProtectUninstall", t_uninstall_trigger, [(TRG, "ConfigProtectUninstall.trigger")], bounded={"entries": 2}, enumerate=enum_roots),
     ]
 
@@ -454,4 +497,4 @@ def tasks():
 LEVEL = "other"
 EXPLANATION = ("bounded stand-ins only: the triggers iterate contents sets and directory listings, which are run on small explicit scenarios (all "
                "branch combinations, arbitrary 'same content' answers) rather than under loop invariants; no obligation is counted as proved.")
-REPLAY = {}
+REPLAY = {"C21.simple_chksum_compare.": replay_chksum_compare}
